@@ -23,43 +23,77 @@ READY = True
 MANIFEST = dict(
     text="Lean 4 theorems about a literal model of TargetRegistry (exact table, ordered type tree with the "
          "re-parenting insertion loop of _register_fuzzy_type, memo, auto-discovery map, register / "
-         "register_op / get_handler / _get_matching_types / _get_closest_type, Glommer construction): for "
-         "every class hierarchy with coherent isinstance/issubclass/MRO, every set of registries and every "
-         "history of register / register_op calls with lookups interleaved anywhere (induction over the "
-         "operation list, no bound) each registry keeps the tree invariants (keys are superclasses of the "
-         "keys below, sibling keys distinct and unrelated, the tree holds exactly the covering types, every "
-         "node has a handler, the memo holds only current answers) and every lookup returns the handler of "
-         "an allowed type of the memo-free reference semantics (exact registration, else the MRO-nearest "
-         "covering base unless a covering type lies strictly below it, else a minimal matching covering "
-         "type); corollaries c13_exact_wins, c13_nearest(_base/_nominal), c13_never_less_specific, "
-         "c13_covers_subclasses, c13_order_independent_chain, c13_lookup_pure, c13_immediate, c13_isolation, "
-         "c13_default_glommer; failed lookups and rejected calls: get_handler under either memo policy "
-         "(failed lookups memoised or not) answers like the un-memoised lookup on every reachable registry "
-         "(c13_memo_policy_irrelevant), a registration makes registries that differ in their memo equal "
-         "(c13_registration_forgets_lookups, c13_immediate_op), a register()/register_op() call is applied in "
-         "full or raises TypeError and leaves tables, trees and memo as they were (c13_rejected_register_noop, "
-         "c13_rejected_register_op_noop) so that every later lookup of any further history answers as without "
-         "the call (c13_rejected_history); per-run facts obligation by `decide` on the registration sequences, decision "
-         "shapes (incl. statement order: every write of register/register_op to the registry's tables, trees "
-         "and memo follows the last raise; get_handler raises before the memo write) and builtin hierarchy "
-         "regenerated from /repo; model tied to the code by differential "
-         "execution of real register/get_handler/glom/assign/delete calls against the compiled Lean driver "
-         "(answers, invoked handlers and final tree shapes compared).",
+         "register_op / get_handler / _get_matching_types / _get_closest_type, Glommer construction). "
+         "issubclass / isinstance are ABSTRACT relations (tables), not derived from the MRO, so ABC.register, "
+         "__subclasshook__ and __instancecheck__ duck types are ordinary instances; hypotheses are split: "
+         "SubFacts (issubclass transitive and antisymmetric, isinstance closed under it; no reflexivity - glom's "
+         "_AbstractIterable is not its own subclass) and MroFacts (instances of every MRO class; linearisation "
+         "monotone). Forest: for EVERY insertion order the coded insertion algorithm keeps child-subclass-of-"
+         "parent and siblings-incomparable at every level and holds exactly the inserted types "
+         "(c13_forest_invariant, transitivity only; one register() = one insertion per touched op, "
+         "c13_register_inserts); lookup through the forest is a type the set-based reference allows and a "
+         "minimal matching one (c13_forest_lookup, c13_forest_lookup_minimal, SubFacts only); two insertion "
+         "orders give the same minimal candidates and the same answer when a minimal match is in the MRO or is "
+         "unique (c13_forest_order_independent; counter-example: two unrelated ABCs with a common virtual "
+         "subclass). Histories: for every hierarchy with SubFacts, every set of registries and every history of "
+         "register / register_op calls with lookups interleaved anywhere (induction over the operation list, no "
+         "bound) each registry keeps the tree invariants, the memo holds only current answers and every lookup "
+         "returns the handler of an allowed type of the memo-free reference semantics (c13_invariants, "
+         "c13_model_checks - no MRO fact needed); corollaries c13_exact_wins, c13_nearest(_base), "
+         "c13_never_less_specific, c13_order_independent_chain, c13_lookup_pure, c13_immediate, c13_isolation, "
+         "c13_default_glommer; c13_nearest_nominal needs mro_lin and c13_covers_subclasses mro_inst (counter-"
+         "examples: class T(V, A) with V.register(A); a metaclass refusing real subclasses). exact=True: writes no "
+         "tree (c13_exact_keeps_trees), an exact-only type serves nobody else (c13_exact_only_never_serves), "
+         "covering types = those with some non-exact registration (c13_cover_characterisation), the same type "
+         "again with exact=True keeps covering and its new handler serves the subclasses "
+         "(c13_exact_reregistration), non-exact after exact inherits the handler and starts covering "
+         "(c13_fuzzy_after_exact). Builtin subclasses: probe subclasses of dict/list/tuple/str/object (with "
+         "__dict__ / __slots__) built at extraction time - the model's module registry resolves every probe and "
+         "base for every op exactly as a copy of the real one answered, and every probe is served like its base "
+         "(obj-style keys for a __dict__ instance whose base has no keys handler; str subclasses are iterable) "
+         "(c13_builtin_subclasses, decide +kernel on regenerated facts). Answers are compared IN FULL: a lookup "
+         "yields answerOf(un-memoised handler, raise_exc) - UnregisteredTarget exactly when raise_exc and a returned "
+         "False exactly when not - whatever the memo holds (c13_answer_in_full, c13_lookup_pure on full answers; "
+         "counter-example getHandlerHitReturns = the code before 8b51f6e); ties among incomparable virtual matches "
+         "are broken by pre-order of the forest (c13_tie_break_first_candidate; not 'first registered', example), "
+         "and since 165f0ee register_op walks the known types in registration order, so the outcome is a function "
+         "of the history (runD, c13_outcome_function_of_history, c13_runD_checks; counter-example: two orders of "
+         "the former set). Failed lookups and rejected calls: "
+         "c13_memo_policy_irrelevant, c13_registration_forgets_lookups, c13_immediate_op, "
+         "c13_rejected_register_noop / _op_noop / c13_rejected_history. Per-run facts obligation by `decide` on the "
+         "registration sequences, decision shapes (path-sensitive effect analysis of register / register_op / "
+         "get_handler that follows private helpers: no write before a raise, memo reset after the last table "
+         "write on every returning path, the failed-lookup raise precedes the memo store; _get_closest_type as a "
+         "symbolic summary modulo local renaming / lambda-vs-def / statement order), builtin hierarchy, and the "
+         "stated meaning of glom's duck types and builtin auto-discovery functions on the builtin types (duckOK, "
+         "autoOK), and the extracted registration sequences build the registries of the pinned ones (setupOK; the "
+         "reference starts from pinnedSetup, the model from the extracted sequences); model tied to the code by differential execution of real register / get_handler / glom / "
+         "assign / delete calls against the compiled Lean driver (full answers, invoked handlers and final tree "
+         "shapes compared); every case that runs register_op (explicitly or inside Glommer()) is replayed twice "
+         "with its classes at other memory addresses and must give the same answers.",
     note="trusted: Lean kernel + {propext, Classical.choice, Quot.sound}; extractor (extract/facts/c13.py); "
-         "harness/driver; CPython's __mro__/isinstance/issubclass taken as tables per case (their coherence "
-         "is a decidable check, proved sufficient for the theorems' hypotheses; incoherent hierarchies are "
-         "skipped); auto-discovery functions are environment parameters (their results per class are read "
-         "from the implementation; C11/C12 cover them); the iteration order of the set `known_types` in "
-         "register_op is an explicit parameter observed by the harness; values register()/register_op() refuse "
-         "(not callable and not False; an auto-discovery function that raises) are encoded as handlers with "
-         "reserved names; which op / type the TypeError names is not observed; a Glommer() whose construction "
-         "itself raises TypeError (it copies an auto function that refuses a default type) is skipped.",
-    technique='Lean 4 invariant proof over operation lists + refinement to a set-based reference semantics + '
-              'facts obligation by decide + differential correspondence',
+         "harness/driver; CPython's __mro__/isinstance/issubclass taken as tables per case (SubFacts is a "
+         "decidable check, proved sufficient for the theorems' hypotheses; hierarchies failing it are skipped, "
+         "MRO-inconsistent ones are NOT skipped); the meaning of glom's own duck types (_AbstractIterable: "
+         "callable __iter__ and not str/bytes themselves; _ObjStyleKeys: instance __dict__ with keys) and of the "
+         "auto-discovery of the builtin ops (iterate: iter iff callable __iter__; get: getattr) is stated by the "
+         "harness and the property is evaluated on that reference hierarchy; the auto-discovery functions of "
+         "assign/delete are environment parameters (their results per class are read from the implementation; "
+         "C11/C12 cover them); the iteration order of the set `known_types` in register_op is an explicit "
+         "parameter observed by the harness; values register()/register_op() refuse (not callable and not False; "
+         "an auto-discovery function that raises) are encoded as handlers with reserved names; which op / type "
+         "the TypeError names is not observed; a Glommer() whose construction itself raises TypeError (it copies "
+         "an auto function that refuses a default type) is skipped; an implementation that cannot be imported / "
+         "cannot build a registry, a lookup that raises anything but UnregisteredTarget, and a valid "
+         "registration that raises are reported as failing inputs.",
+    technique='Lean 4 invariant proof over operation lists and over insertion orders + refinement to a set-based '
+              'reference semantics + facts obligation by decide (path-sensitive effect analysis, symbolic '
+              'summaries, probe subclasses) + differential correspondence',
     ref='DESIGN.md §3 C13')
 RULE = ('type-directed: a class hierarchy is drawn from the families chain / diamond / mixin / virtual (ABC '
         'registration, __subclasshook__, __instancecheck__ duck types) / virtual diamond / virtual type below '
-        'a real base / builtin subclasses (dict, list, tuple, OrderedDict, set, str, int) / random DAGs, each '
+        'a real base / MRO-inconsistent virtual subclassing (class T(V, A) with V.register(A)) / builtin '
+        'subclasses (dict, list, tuple, OrderedDict, set, str, int) / random DAGs, each '
         'class with or without __dict__ (__slots__) and __iter__, built with types.new_class; 1-3 registries '
         '(module-level default registry [a deep copy swapped in], Glommer(), Glommer(register_default_types='
         'False), TargetRegistry(True/False)) are constructed at random points; 0-8 register() calls (case '
@@ -67,7 +101,15 @@ RULE = ('type-directed: a class hierarchy is drawn from the families chain / dia
         'or False; user ops) and occasional register_op() calls, with 1-3 lookups after every call on this '
         'and the other registries (also of an op nobody registered yet), through get_handler(raise_exc=True/False) or real glom(obj,"x") / '
         'glom(obj,[T]) / glom(obj,"*") / assign / delete; a one-edit stream re-registers one type at every '
-        'position of a valid history; a failing-lookup stream (bare registry / op not registered yet / type '
+        'position of a valid history; a tie stream (2-4 mutually unrelated ABCs / duck types that all match '
+        'one plain class, registered in random order, optionally a common supertype last, then register_op(new op) '
+        'with an auto function giving every type its own handler, then lookups: the tie is broken by registration '
+        'history, never by memory addresses - every case running register_op is replayed with its classes '
+        'elsewhere in memory); a False-then-raise stream (raise_exc=False lookup that finds nothing, then the same '
+        'lookup raising through get_handler and through real glom, then the registration that provides a handler); '
+        'an exact-flip stream (the same type two or three times with alternating '
+        'exact, with a new handler / False / no keyword, on a type with real or virtual subclasses, a lookup of '
+        'every class after every call); a failing-lookup stream (bare registry / op not registered yet / type '
         'without a handler -> the registration that makes the lookup succeed, nothing in between -> the same '
         'lookup -> unrelated registration -> the same lookup); a rejected-registration stream (register() with '
         'one non-callable handler at a random position of the sorted op order, an auto-discovery function that '
@@ -80,8 +122,10 @@ RULE = ('type-directed: a class hierarchy is drawn from the families chain / dia
         'every registration. non-trivial = the history has a register() call and some lookup is answered '
         'from the exact table or the type tree; distinct = distinct (classes, registries, actions)')
 TRUSTED = ['isinstance / issubclass / __mro__ tables of each case are computed by the interpreter and '
-           'checked for coherence (tableOK) by the Lean driver; cases failing it are skipped',
-           'auto-discovery results per class are read from glom\'s own auto functions (environment of C13)']
+           'checked (subOK: transitive, antisymmetric, isinstance upward closed) by the Lean driver; cases failing it are skipped',
+           'the stated meaning of glom\'s duck types and of the auto-discovery of get / iterate (harness reference predicates, '
+           'Lean obligations duckOK / autoOK on the builtin types)',
+           'auto-discovery results of assign / delete per class are read from glom\'s own auto functions (environment of C13)']
 ASSUMPTIONS = ['the error class of a rejected call is TypeError; which op / type it names is not compared',
                'register_op iterates a set: its order is observed by the harness and passed to the model']
 
@@ -89,7 +133,7 @@ BUILTIN_NAMES = ['object', 'dict', 'OrderedDict', 'list', 'tuple', 'set', 'froze
 GLOM_TYPES = ['_AbstractIterable', '_ObjStyleKeys']
 OPS = ['get', 'iterate', 'keys', 'assign', 'delete']
 USER_OPS = ['uop']
-USER_AUTOS = ['auto_none', 'user_const', 'user_iterlike']
+USER_AUTOS = ['auto_none', 'user_const', 'user_iterlike', 'user_bytype']
 # auto-discovery functions that make register()/register_op() raise TypeError for some types
 BAD_AUTOS = ['user_bad_iter', 'user_raise_slots']
 BAD_TAGS = ['!bad', '!bad:0', '!bad:none']        # keyword values register() refuses
@@ -129,10 +173,19 @@ def base_env():
     return env
 
 
-def build_classes(specs):
-    """specs -> {name: class}; raises TypeError/RuntimeError for an impossible hierarchy"""
+def build_classes(specs, pad=None):
+    """specs -> {name: class}; raises TypeError/RuntimeError for an impossible hierarchy.
+    `pad` (a list of small integers, used cyclically): before each class that many throw-away
+    classes and byte buffers are allocated and kept alive in env['__junk__'], so that the case's
+    classes land at other memory addresses (and hash to other set slots) than without it."""
     env = base_env()
-    for s in specs:
+    junk = []
+    for k, s in enumerate(specs):
+        if pad:
+            n = pad[k % len(pad)]
+            for j in range(n):
+                junk.append(type('J%d_%d' % (k, j), (), {}))
+                junk.append(bytearray(176 * (1 + (n + j) % 5)))
         name = s['name']
         if name in env:
             raise TypeError('duplicate class name ' + name)
@@ -159,6 +212,8 @@ def build_classes(specs):
     for s in specs:
         for v in s.get('virtual', []):
             env[s['name']].register(env[v])
+    if junk:
+        env['__junk__'] = junk
     return env
 
 
@@ -217,6 +272,9 @@ def user_auto(name, op):
     if name == 'user_iterlike':
         h = handler_of('h:auto:iterlike', op)
         return lambda t: h if callable(getattr(t, '__iter__', None)) else False
+    if name == 'user_bytype':
+        # a handler of its own for every type: which type served a lookup is visible in the answer
+        return lambda t: handler_of('h:auto:' + t.__name__, op)
     if name == 'user_bad_iter':
         h = handler_of('h:auto:const', op)
         return lambda t: 'not-callable' if callable(getattr(t, '__iter__', None)) else h
@@ -231,8 +289,32 @@ def user_auto(name, op):
     raise ValueError(name)
 
 
+HIER_ERRORS = []
+
+
+def safe_isinstance(x, c):
+    """isinstance() as the interpreter answers it; a class whose check *raises* (glom's duck types
+    run glom code there) counts as "not an instance" and the error is reported with the tables"""
+    try:
+        return bool(isinstance(x, c))
+    except Exception as e:
+        HIER_ERRORS.append('isinstance(<%s>, %s) raised %s' % (type(x).__name__, getattr(c, '__name__', c),
+                                                              type(e).__name__))
+        return False
+
+
+def safe_issubclass(c, d):
+    try:
+        return bool(issubclass(c, d))
+    except Exception as e:
+        HIER_ERRORS.append('issubclass(%s, %s) raised %s' % (c.__name__, getattr(d, '__name__', d),
+                                                             type(e).__name__))
+        return False
+
+
 def hier_tables(env, specs):
     from glom import core, mutation
+    del HIER_ERRORS[:]
     classes = []
     for n in BUILTIN_NAMES + GLOM_TYPES + [s['name'] for s in specs]:
         for k in env[n].__mro__:
@@ -242,13 +324,13 @@ def hier_tables(env, specs):
     if len(set(names)) != len(names):
         raise TypeError('class names not unique: %r' % names)
     mro = [[c.__name__, [k.__name__ for k in c.__mro__]] for c in classes]
-    sub = [[c.__name__, d.__name__] for c in classes for d in classes if issubclass(c, d)]
+    sub = [[c.__name__, d.__name__] for c in classes for d in classes if safe_issubclass(c, d)]
     inst = []
     for c in classes:
         x = make_instance(c)
         assert type(x) is c
         for d in classes:
-            if isinstance(x, d):
+            if safe_isinstance(x, d):
                 inst.append([c.__name__, d.__name__])
     fresh = core.TargetRegistry(register_default_types=False)
     autos = {'auto_' + op: f for op, f in fresh._op_auto_map.items()}
@@ -268,14 +350,82 @@ def hier_tables(env, specs):
             return '!bad'
         return hname(h) or 'False'
     auto = [[f, [[c.__name__, outcome(fn, c)] for c in classes]] for f, fn in autos.items()]
-    return {'top': 'object', 'mro': mro, 'inst': inst, 'sub': sub, 'auto': auto, 'universe': names}
+    out = {'top': 'object', 'mro': mro, 'inst': inst, 'sub': sub, 'auto': auto, 'universe': names,
+           'errors': sorted(set(HIER_ERRORS))}
+    # glom's two duck types mean "iterable, but not a string" and "has a __dict__ with keys": what the
+    # interpreter answers for them is computed by glom's own code, so it is held against the
+    # harness's statement of that meaning; the rows that differ are sent along (`ref_inst` /
+    # `ref_sub`) and the checker evaluates the property on the reference hierarchy
+    AI, OK = core._AbstractIterable, core._ObjStyleKeys
+    keys_like = [k for k in classes if type(k) is type(OK) and k is not object]
+
+    def ref_iter(c):
+        return c not in (str, bytes) and callable(getattr(c, '__iter__', None))
+
+    def ref_keys(x):
+        return hasattr(x, '__dict__') and hasattr(x.__dict__, 'keys')
+    ref_sub = [[c.__name__, d.__name__] for c in classes for d in classes
+               if (ref_iter(c) if d is AI else [c.__name__, d.__name__] in sub)]
+    sub_set = {(a, b) for a, b in ref_sub}
+    ref_inst = []
+    for c in classes:
+        x = make_instance(c)
+        for d in classes:
+            if d is AI:
+                ok = (c is d) or ref_iter(c)
+            elif d in keys_like:
+                ok = (c is d) or ref_keys(x)
+            else:
+                ok = [c.__name__, d.__name__] in inst
+            if ok:
+                ref_inst.append([c.__name__, d.__name__])
+    # isinstance is closed under issubclass (a virtual subclass of an iterable ABC …)
+    changed = True
+    while changed:
+        changed = False
+        have = {(a, b) for a, b in ref_inst}
+        for a, b in list(have):
+            for (b2, e) in sub_set:
+                if b2 == b and (a, e) not in have:
+                    ref_inst.append([a, e])
+                    have.add((a, e))
+                    changed = True
+    if sorted(ref_inst) != sorted(inst) or sorted(ref_sub) != sorted(sub):
+        out['ref_inst'] = ref_inst
+        out['ref_sub'] = ref_sub
+    # the same for the auto-discovery functions of the two builtin operations (`_register_builtin_ops`):
+    # 'iterate' is supported through iter() by every type with a callable __iter__, 'get' through
+    # getattr by every type
+    ref_auto = []
+    for f, rows in auto:
+        if f == 'auto_iterate':
+            rows = [[c.__name__, 'iter' if callable(getattr(c, '__iter__', None)) else 'False'] for c in classes]
+        elif f == 'auto_get':
+            rows = [[c.__name__, 'getattr'] for c in classes]
+        ref_auto.append([f, rows])
+    if ref_auto != auto:
+        out['ref_auto'] = ref_auto
+    return out
 
 
 def forest_json(od):
     return [[t.__name__, forest_json(sub)] for t, sub in od.items()]
 
 
+def _depth(od):
+    d, level = 0, [od]
+    while level:
+        level = [sub for o in level for sub in o.values() if sub]
+        d += 1
+        if d > 400:
+            break
+    return d
+
+
 def trees_json(reg):
+    # trees nested deeper than a few hundred levels (see DEEP_REREGISTRATION) are not compared
+    if any(_depth(tr) > 300 for tr in reg._op_type_tree.values()):
+        return None
     return [[op, forest_json(tr)] for op, tr in reg._op_type_tree.items()]
 
 
@@ -363,6 +513,11 @@ class World:
                 call['ans'] = 'keyError'
                 rec.append(call)
                 raise
+            except Exception as e:
+                # neither a handler nor UnregisteredTarget: e.g. a duck type's isinstance check raised
+                call['ans'] = {'error': type(e).__name__}
+                rec.append(call)
+                raise
             call['ans'] = {'ret': hname(h)}
             rec.append(call)
             return h
@@ -393,22 +548,35 @@ def normalise(case):
     return acts
 
 
-def run_impl(case):
+EMPTY_HIER = {'top': 'object', 'mro': [], 'inst': [], 'sub': [], 'auto': [], 'universe': [], 'errors': []}
+
+
+def _crashed(out, what, e):
+    """glom itself cannot be imported / cannot build a registry: no lookup of the case can be
+    answered, which is reported as the implementation's observation (not as a harness error)"""
+    out.setdefault('hier', EMPTY_HIER)
+    out.setdefault('module_orders', [])
+    out['impl'] = {'crash': '%s: %s: %s' % (what, type(e).__name__, str(e)[:200])}
+    return out
+
+
+def _execute(case, actions, env):
+    """replay the actions on fresh registries built over the classes of `env`
+    -> ('ok', obs, trees, init_trees, module_orders) | ('skip', why) | ('crash', what, exc)"""
     import glom
     from glom import core
-    specs = case['classes']
-    env = build_classes(specs)
-    out = {k: v for k, v in case.items() if not k.startswith('impl')}
-    out['actions'] = normalise(case)
-    out['hier'] = hier_tables(env, specs)
     w = World(case['kinds'])
-    out['module_orders'] = module_orders(w.saved, 2)
+    morders = module_orders(w.saved, 2)
     obs = []
-    user_autos = {}
     try:
-        for a in out['actions']:
+        for a in actions:
             i = a['reg']
-            reg = w.reg(i)
+            try:
+                reg = w.reg(i)
+            except Inapplicable:
+                raise
+            except Exception as e:
+                return ('crash', 'constructing registry %d (%s)' % (i, case['kinds'][i]), e)
             kind = case['kinds'][i]
             del w.rec[:]
             del RAN[:]
@@ -429,6 +597,8 @@ def run_impl(case):
                     obs.append(None)
                 except TypeError:
                     obs.append({'raised': 'TypeError'})
+                except Exception as e:
+                    obs.append({'raised': type(e).__name__})
             elif a['a'] == 'register_op':
                 order = known_order(reg)
                 if a['auto'] not in USER_AUTOS + BAD_AUTOS:
@@ -442,6 +612,8 @@ def run_impl(case):
                         reg.register_op(a['op'], auto_func=f, exact=a['exact'])
                 except TypeError:
                     ob['raised'] = 'TypeError'
+                except Exception as e:
+                    ob['raised'] = type(e).__name__
                 obs.append(ob)
             elif a['a'] == 'bad_call':
                 # a call rejected on its arguments alone
@@ -468,12 +640,16 @@ def run_impl(case):
                     obs.append(None)
                 except TypeError:
                     obs.append({'raised': 'TypeError'})
+                except ValueError:
+                    raise
+                except Exception as e:
+                    obs.append({'raised': type(e).__name__})
             elif a['a'] == 'lookup':
                 x = make_instance(env[a['ty']])
                 try:
                     reg.get_handler(a['op'], x, raise_exc=a['raise'])
-                except (core.UnregisteredTarget, KeyError):
-                    pass
+                except Exception:
+                    pass           # recorded by the wrapper: unregistered / keyError / error:<class>
                 obs.append({'calls': list(w.rec)})
             elif a['a'] == 'glom':
                 x = make_instance(env[a['ty']])
@@ -507,11 +683,88 @@ def run_impl(case):
         trees = [trees_json(r) for r in w.regs]
         init = list(w.init_trees)
     except Inapplicable as e:
-        out['impl'] = {'skip': str(e)}
-        return out
+        return ('skip', str(e))
     finally:
         w.close()
+    return ('ok', obs, trees, init, morders)
+
+
+def _answers(obs):
+    """what the property observes of a run: the answers of the lookups and the handlers that ran"""
+    out = []
+    for ob in obs:
+        if isinstance(ob, dict) and 'calls' in ob:
+            out.append([[c['op'], c['ty'], c['ans']] for c in ob['calls']] + [ob.get('ran')])
+        elif isinstance(ob, dict) and 'raised' in ob:
+            out.append(ob['raised'])
+        else:
+            out.append(None)
+    return out
+
+
+# how many times a case that runs `register_op` (explicitly, or inside Glommer()) is replayed with its
+# classes at other memory addresses: the answers must not depend on where the classes live
+LAYOUT_REPLAYS = 2
+
+
+def _layout_pads(case):
+    import zlib
+    h = zlib.crc32(json.dumps(key(case), sort_keys=True).encode())
+    pads = []
+    for r in range(LAYOUT_REPLAYS):
+        h = (h * 1103515245 + 12345 + r) & 0x7fffffff
+        pads.append([1 + (h >> (3 * k)) % 4 for k in range(5)])
+    return pads
+
+
+def run_impl(case):
+    out = {k: v for k, v in case.items() if not k.startswith('impl')}
+    out['actions'] = normalise(case)
+    try:
+        import glom
+        from glom import core
+        import glom.mutation
+        core._DEFAULT_SCOPE[core.TargetRegistry]
+        core.TargetRegistry(register_default_types=True)
+    except Exception as e:
+        return _crashed(out, 'import glom / TargetRegistry()', e)
+    specs = case['classes']
+    env = build_classes(specs)
+    try:
+        out['hier'] = hier_tables(env, specs)
+    except (AssertionError, ValueError):
+        raise
+    except Exception as e:
+        return _crashed(out, 'auto-discovery / hierarchy of the default types', e)
+    res = _execute(case, out['actions'], env)
+    if res[0] == 'crash':
+        return _crashed(out, res[1], res[2])
+    if res[0] == 'skip':
+        out['module_orders'] = []
+        out['impl'] = {'skip': res[1]}
+        return out
+    _, obs, trees, init, morders = res
+    out['module_orders'] = morders
     out['impl'] = {'obs': obs, 'trees': trees, 'init_trees': init}
+    # the outcome has to be a function of the history: replay with the classes elsewhere in memory
+    runs_regop = any(a['a'] == 'register_op' for a in out['actions']) or \
+        any(k.startswith('glommer') for k in case['kinds'])
+    if runs_regop and LAYOUT_REPLAYS:
+        base = _answers(obs)
+        for pad in _layout_pads(case):
+            env2 = build_classes(specs, pad=pad)
+            res2 = _execute(case, out['actions'], env2)
+            if res2[0] != 'ok':
+                continue
+            other = _answers(res2[1])
+            if other != base:
+                idx = next(k for k in range(min(len(base), len(other))) if base[k] != other[k]) \
+                    if len(base) == len(other) else -1
+                out['impl']['layout'] = {'index': idx, 'first': base[idx] if idx >= 0 else None,
+                                         'second': other[idx] if idx >= 0 else None, 'pad': pad}
+                break
+            if res2[2] != trees and 'layout_trees' not in out['impl']:
+                out['impl']['layout_trees'] = {'pad': pad}
     return out
 
 
@@ -578,6 +831,26 @@ def h_virtual_under_base(rng):
             cls('VN', ['N'], meta='abc', virtual=['Y'])]
 
 
+def h_virtual_first(rng):
+    """MRO-inconsistent virtual subclassing: a class that lists an ABC *before* a class registered as
+    the ABC's virtual subclass (`class T(V, A)`, `V.register(A)`): in `T.__mro__` the virtual
+    superclass precedes its subclass"""
+    s = rng.random() < 0.5
+    out = [cls('A', ['object'], slots=s, iter=rng.random() < 0.2)]
+    if rng.random() < 0.5:
+        out.append(cls('A2', ['A'], slots=s))
+    low = out[-1]['name']
+    out.append(cls('V', ['object'], meta='abc', virtual=[rng.choice(['A', low])], slots=True))
+    if rng.random() < 0.4:
+        out.append(cls('W', ['object'], meta='abc', virtual=[low], slots=True))
+    vs = [c['name'] for c in out if c.get('meta')]
+    bases = rng.sample(vs, len(vs)) + [low]
+    out.append(cls('T', bases, slots=s))
+    if rng.random() < 0.5:
+        out.append(cls('T2', ['T'], slots=s))
+    return out
+
+
 def h_builtin(rng):
     out = []
     for i, b in enumerate(rng.sample(['dict', 'list', 'tuple', 'OrderedDict', 'set', 'str', 'int'], 3)):
@@ -618,28 +891,26 @@ def h_random(rng):
 
 
 def coherent(env, specs):
-    """isinstance / issubclass / __mro__ agree with each other (the Lean side's `hierWF`)"""
+    """isinstance / issubclass are a transitive, antisymmetric relation with isinstance closed
+    under it (the Lean side's `subOK`: what the checker theorem needs).  Consistency of the MRO with
+    them (`mroOK`) is NOT required: `class T(V, A)` with `V.register(A)` lists the virtual superclass
+    before its subclass and is inside the property's family."""
     classes = []
     for n in BUILTIN_NAMES + GLOM_TYPES + [s['name'] for s in specs]:
         for k in env[n].__mro__:
             if k not in classes:
                 classes.append(k)
     insts = [(c, make_instance(c)) for c in classes]
-    sub = {(c, d): issubclass(c, d) for c in classes for d in classes}
+    sub = {(c, d): safe_issubclass(c, d) for c in classes for d in classes}
     for c, x in insts:
-        if not all(isinstance(x, b) for b in c.__mro__):
-            return False
         for d in classes:
             if sub[c, d] and sub[d, c] and c is not d:
                 return False
-            idd = isinstance(x, d)
+            idd = safe_isinstance(x, d)
             for e in classes:
                 if sub[c, d] and sub[d, e] and not sub[c, e]:
                     return False
-                if idd and sub[d, e] and not isinstance(x, e):
-                    return False
-                m = c.__mro__
-                if d in m and e in m and sub[e, d] and e is not d and not m.index(e) < m.index(d):
+                if idd and sub[d, e] and not safe_isinstance(x, e):
                     return False
     return True
 
@@ -878,7 +1149,7 @@ def h_virtual_lattice(rng):
 
 
 FAMILIES = [h_chain, h_diamond, h_mixin, h_virtual, h_virtual_diamond, h_virtual_under_base,
-            h_builtin, h_random, h_random, h_virtual_lattice]
+            h_builtin, h_random, h_random, h_virtual_lattice, h_virtual_first]
 
 
 def cross_branch_stream(rng, n):
@@ -1073,7 +1344,173 @@ def rejected_stream(rng, n):
         yield {'classes': specs, 'kinds': [kind], 'actions': acts}
 
 
+def tie_regop_stream(rng, n):
+    """several mutually unrelated virtual / duck types that all match the same plain class are
+    registered (in a random order, some re-registered, sometimes a common supertype registered last),
+    then `register_op(<new op>, auto_func)` with an auto function that gives every type its own
+    handler, then lookups of the plain class and its subclass for the new op: which of the tied types
+    serves them is decided by the order in which register_op walks the known types — the
+    registration order, never the memory addresses of the classes"""
+    for _ in range(n):
+        k = rng.choice([2, 2, 3, 3, 4])
+        s = rng.random() < 0.5
+        specs = [cls('P', ['object'], slots=s, iter=rng.random() < 0.3), cls('P2', ['P'], slots=s)]
+        tied = []
+        for j in range(k):
+            if not s and rng.random() < 0.2 and 'Dk' not in tied:
+                specs.append(cls('Dk', ['object'], meta='duck', duck='has_dict'))
+                tied.append('Dk')
+            else:
+                specs.append(cls('V%d' % j, ['object'], meta='abc', virtual=[rng.choice(['P', 'P', 'P2'])], slots=True))
+                tied.append('V%d' % j)
+        top = None
+        if rng.random() < 0.3:
+            abcs = [t for t in tied if t != 'Dk']
+            sub_of_top = rng.sample(abcs, min(len(abcs), rng.choice([1, 2])))
+            specs.append(cls('U', ['object'], meta='abc', virtual=sub_of_top, slots=True))
+            top = 'U'
+        if not valid_classes(specs):
+            continue
+        kind = rng.choice(['registry:0', 'registry:1', 'glommer:1', 'glommer:0', 'module'])
+        acts = []
+        order = rng.sample(tied, len(tied))
+        for t in order:
+            acts.append({'a': 'register', 'reg': 0, 'ty': t, 'exact': False,
+                         'kw': [] if rng.random() < 0.6 else [['get', 'h:%s' % t]]})
+        if rng.random() < 0.3:
+            acts.append({'a': 'register', 'reg': 0, 'ty': rng.choice(order), 'exact': False, 'kw': []})
+        if top:
+            acts.append({'a': 'register', 'reg': 0, 'ty': top, 'exact': False, 'kw': []})
+        if rng.random() < 0.4:
+            acts.append({'a': 'lookup', 'reg': 0, 'op': 'uop', 'ty': 'P', 'raise': rng.random() < 0.5})
+        acts.append({'a': 'register_op', 'reg': 0, 'op': 'uop', 'auto': 'user_bytype', 'exact': False})
+        for q in ['P', 'P2'] + ([rng.choice(tied)] if rng.random() < 0.3 else []):
+            acts.append({'a': 'lookup', 'reg': 0, 'op': 'uop', 'ty': q, 'raise': rng.random() < 0.7})
+        if rng.random() < 0.4:
+            # … and once more for the builtin op the types were registered for
+            acts.append({'a': 'register_op', 'reg': 0, 'op': 'get', 'auto': 'user_bytype', 'exact': False})
+            acts.append({'a': 'lookup', 'reg': 0, 'op': 'get', 'ty': 'P', 'raise': True})
+        yield {'classes': specs, 'kinds': [kind], 'actions': acts}
+
+
+def false_then_raise_stream(rng, n):
+    """a lookup with raise_exc=False that finds no handler (and memoises False), then the same lookup
+    with raise_exc=True — through get_handler and through a real glom call —: it has to raise
+    UnregisteredTarget, never return the remembered False; then the registration that provides a
+    handler, and both lookups again"""
+    for _ in range(n):
+        specs = rng.choice([h_chain, h_mixin, h_builtin, h_virtual])(rng)
+        if not valid_classes(specs):
+            continue
+        names = [c['name'] for c in specs]
+        mode = rng.choice(['new-op', 'bare', 'no-handler'])
+        if mode == 'bare':
+            kind = rng.choice(['registry:0', 'glommer:0'])
+            op = rng.choice(['get', 'iterate', 'keys'])
+        else:
+            kind = rng.choice(['registry:0', 'registry:1', 'glommer:1', 'module'])
+            op = 'uop' if mode == 'new-op' else rng.choice(['iterate', 'keys'])
+        t = rng.choice(names + (['int', 'str'] if op == 'iterate' else []))
+        acts = []
+        if rng.random() < 0.5 and mode != 'bare':
+            acts.append({'a': 'register', 'reg': 0, 'ty': rng.choice(names), 'exact': rng.random() < 0.3,
+                         'kw': [['get', 'h:g']]})
+        acts.append({'a': 'lookup', 'reg': 0, 'op': op, 'ty': t, 'raise': False})
+        second = [{'a': 'lookup', 'reg': 0, 'op': op, 'ty': t, 'raise': True}]
+        if op in ('get', 'iterate'):
+            second.append({'a': 'glom', 'reg': 0, 'spec': op, 'ty': t})
+        elif op == 'keys':
+            second.append({'a': 'glom', 'reg': 0, 'spec': 'star', 'ty': t})
+        rng.shuffle(second)
+        acts += second
+        acts.append({'a': 'lookup', 'reg': 0, 'op': op, 'ty': t, 'raise': False})
+        if t in names or op == 'uop':
+            acts.append({'a': 'register', 'reg': 0, 'ty': t, 'exact': rng.random() < 0.4, 'kw': [[op, 'h:new']]})
+            acts += [dict(a) for a in second]
+        yield {'classes': specs, 'kinds': [kind], 'actions': acts}
+
+
+# ---------------------------------------------------------------------------------------------
+# GATED INPUT CLASS (switch): the same type registered again and again without exact=True.
+# Genuine defect of glom (reported to the lead, not yet repaired in /repo): `_register_fuzzy_type`
+# treats an existing key as "a subclass of the new type" (`issubclass(T, T)`), pops it and files it
+# below a *new* key of the same type — every re-registration nests the type one level deeper under
+# itself (`{A: {A: {A: …}}}`; the default registry already holds `dict -> dict -> OrderedDict ->
+# OrderedDict`).  `_get_matching_types` recurses once per level, so after about a thousand
+# re-registrations of one type every lookup of an unregistered subclass raises RecursionError.
+# The model mirrors the nesting (Props/C13.lean, `c13_reregistration_nests`); Lean has no
+# recursion limit, so only this stream can observe the failure.  Set to True once the repair is in.
+DEEP_REREGISTRATION = False
+
+
+def deep_reregistration_stream(rng, n):
+    for _ in range(n):
+        specs = [cls('A', ['object'], slots=rng.random() < 0.5), cls('B', ['A'])]
+        kind = rng.choice(['registry:0', 'registry:1', 'glommer:1'])
+        op = rng.choice(['get', 'iterate'])
+        times = rng.choice([1100, 1500])
+        acts = [{'a': 'register', 'reg': 0, 'ty': 'A', 'exact': False, 'kw': [[op, 'h:A']]} for _k in range(times)]
+        acts.append({'a': 'lookup', 'reg': 0, 'op': op, 'ty': 'B', 'raise': True})
+        acts.append({'a': 'glom', 'reg': 0, 'spec': op, 'ty': 'B'})
+        yield {'classes': specs, 'kinds': [kind], 'actions': acts}
+
+
+def exact_flip_stream(rng, n):
+    """the same type registered twice (or three times) with a different `exact` each time — with a
+    new handler, with `False`, or with no keyword at all (the handler is inherited) — on a type that
+    has (real or virtual) subclasses, other types of the hierarchy registered before / between; a
+    lookup of every class after every registration: `exact=True` never retracts a covering
+    registration, a later non-exact registration makes an exact-only type cover"""
+    for _ in range(n):
+        specs = rng.choice([h_chain, h_chain, h_mixin, h_diamond, h_builtin, h_virtual, h_virtual_diamond,
+                            h_virtual_first])(rng)
+        if not valid_classes(specs):
+            continue
+        names = [c['name'] for c in specs]
+        kind = rng.choice(['registry:0', 'registry:1', 'glommer:1', 'module', 'glommer:0'])
+        op = rng.choice(['get', 'iterate', 'keys', 'assign', 'delete'])
+        parents = [b for c in specs for b in c['bases'] + c.get('virtual', []) if b in names]
+        parents += [c['name'] for c in specs if c.get('virtual')]
+        t = rng.choice(parents or names)
+        tagn = [0]
+
+        def tag():
+            tagn[0] += 1
+            return 'h:%d' % tagn[0]
+
+        def looks():
+            return [_same_lookup(rng, op, q) for q in names]
+        acts = []
+        others = [x for x in names if x != t]
+        for x in rng.sample(others, rng.randint(0, len(others))):
+            acts.append({'a': 'register', 'reg': 0, 'ty': x, 'exact': rng.random() < 0.3, 'kw': [[op, tag()]]})
+        e = rng.random() < 0.5
+        acts.append({'a': 'register', 'reg': 0, 'ty': t, 'exact': e, 'exact_given': True, 'kw': [[op, tag()]]})
+        acts += looks()
+        for _k in range(rng.choice([1, 1, 2])):
+            if others and rng.random() < 0.3:
+                acts.append({'a': 'register', 'reg': 0, 'ty': rng.choice(others), 'exact': rng.random() < 0.3,
+                             'kw': [[op, tag()]]})
+            e = not e
+            m = rng.random()
+            kw = [] if m < 0.4 else [[op, None]] if m < 0.5 else [[op, tag()]]
+            acts.append({'a': 'register', 'reg': 0, 'ty': t, 'exact': e, 'exact_given': e or rng.random() < 0.5,
+                         'kw': kw})
+            acts += looks()
+        yield {'classes': specs, 'kinds': [kind], 'actions': acts}
+
+
 def generate(rng, tier, scale, **focus):
+    try:
+        from glom import core
+        import glom.mutation
+        core._DEFAULT_SCOPE[core.TargetRegistry]
+        core.TargetRegistry(register_default_types=True)
+    except Exception:
+        # glom cannot be imported / cannot build a registry: one case suffices, run_impl reports it
+        yield {'classes': [], 'kinds': ['registry:1'],
+               'actions': [{'a': 'lookup', 'reg': 0, 'op': 'get', 'ty': 'dict', 'raise': True}]}
+        return
     n = (1100 if tier == 'quick' else 25000) * scale
     maxreg = 8
     for _ in range(n):
@@ -1083,6 +1520,11 @@ def generate(rng, tier, scale, **focus):
     yield from regop_stream(rng, (60 if tier == 'quick' else 1000) * scale)
     yield from fail_then_register_stream(rng, (150 if tier == 'quick' else 3000) * scale)
     yield from rejected_stream(rng, (200 if tier == 'quick' else 4000) * scale)
+    yield from exact_flip_stream(rng, (120 if tier == 'quick' else 3000) * scale)
+    yield from tie_regop_stream(rng, (120 if tier == 'quick' else 3000) * scale)
+    yield from false_then_raise_stream(rng, (80 if tier == 'quick' else 2000) * scale)
+    if DEEP_REREGISTRATION:
+        yield from deep_reregistration_stream(rng, (2 if tier == 'quick' else 6) * scale)
     if tier == 'thorough' and not focus.get('no_exhaustive'):
         yield from exhaustive()
 
@@ -1144,6 +1586,22 @@ def corpus():
                   [_reg(0, 'E', [['get', 'h:E']], exact=True), _look(0, 'get', 'E2'),
                    {'a': 'register_op', 'reg': 0, 'op': 'get', 'auto': 'auto_none', 'exact': False},
                    _look(0, 'get', 'E2')]))
+    # a raise_exc=False lookup that finds nothing, then the raising lookup / the real glom call of the
+    # same type: UnregisteredTarget, not the remembered False (repaired by 8b51f6e)
+    for kind in ('registry:1', 'glommer:1', 'module'):
+        out.append(_w([], [kind], [_look(0, 'iterate', 'int', False), _look(0, 'iterate', 'int', True),
+                                   {'a': 'glom', 'reg': 0, 'spec': 'iterate', 'ty': 'int'}]))
+    # two unrelated ABCs with a common virtual subclass, then register_op with a handler per type: the
+    # tie is decided by the registration order, not by memory addresses (repaired by 165f0ee; the case is
+    # replayed with its classes elsewhere in memory)
+    VW = [cls('P', ['object']), cls('V0', ['object'], meta='abc', virtual=['P']),
+          cls('V1', ['object'], meta='abc', virtual=['P'])]
+    for first, second in (('V0', 'V1'), ('V1', 'V0')):
+        out.append(_w(VW, ['registry:0'],
+                      [_reg(0, first, [['get', 'h:' + first]]), _reg(0, second, []),
+                       {'a': 'register_op', 'reg': 0, 'op': 'get', 'auto': 'user_bytype', 'exact': False},
+                       {'a': 'register_op', 'reg': 0, 'op': 'uop', 'auto': 'user_bytype', 'exact': False},
+                       _look(0, 'get', 'P'), _look(0, 'uop', 'P')]))
     p = os.path.join(os.path.dirname(os.path.dirname(os.path.dirname(os.path.abspath(__file__)))),
                      'corpus', 'C13.jsonl')
     if os.path.exists(p):
